@@ -180,15 +180,24 @@ def run_case(case, ctx):
         else:
             dr = [1., 2.] * u.kpc
         reported_sc = {}
-        for d, memmap, what in ((d1, False, 'per-file'), (d2, False, 'cube'), (d2, True, 'cube+memmap')):
-            slack = memmap or (f32 and d == d2)
+        # all variants are set up first and stay alive while each is used (fitters do not share state); the last one lists the
+        # filters in reverse order
+        nfl = len(filters)
+        variants = [(d1, False, 'per-file', list(range(nfl))), (d2, False, 'cube', list(range(nfl))),
+                    (d2, True, 'cube+memmap', list(range(nfl))), (d2, True, 'cube+memmap, filters reversed', list(range(nfl))[::-1])]
+        fitters = []
+        for d, memmap, what, perm in variants:
             with must_succeed('Fitter() on the %s package' % what), quiet():
-                fitter = Fitter(fnames, aps, d, extinction_law=law, av_range=list(case['av_range']), distance_range=dr,
-                                use_memmap=memmap)
+                fitters.append(Fitter([fnames[j] for j in perm], aps[perm], d, extinction_law=law, av_range=list(case['av_range']),
+                                      distance_range=dr, use_memmap=memmap))
+        for (d, memmap, what, perm), fitter in zip(variants, fitters):
+            slack = memmap or (f32 and d == d2)
             for src in case['sources']:
                 bands = of.transform_source(src['flags'], src['flux'], src['err'])
+                psrc = dict(src, flags=[src['flags'][j] for j in perm], flux=[src['flux'][j] for j in perm],
+                            err=[src['err'][j] for j in perm])
                 with must_succeed('Fitter.fit'), quiet():
-                    info = fitter.fit(gen.source_object(src))
+                    info = fitter.fit(gen.source_object(psrc))
                 got = [str(x).strip() for x in info.model_name]
                 if sorted(got) != sorted(names):
                     fail('%s package: fit lists models %r' % (what, got), 'c07:fit_model_set')
@@ -215,8 +224,8 @@ def run_case(case, ctx):
                                 break
                     if bad is not None:
                         fail(bad[1], 'c07:fit_' + bad[0].split(':')[1])
-            del fitter
-            labels.add('fitted_' + what)
+            labels.add('fitted_' + what.replace(', filters reversed', '_reversed'))
+        del fitters
         # "fits made from either, memory-mapped or not, agree": all variants must have used ONE distance grid. Every reported
         # scale is log10 of a grid distance, so the acceptable grids each variant is consistent with must intersect
         # (robust against near-ties between neighbouring distances and against single-precision storage).
